@@ -214,3 +214,20 @@ package num
 //@   ensures r.operator == 1 ==> x.operator == 0
 //@   ensures r.operator == 3 ==> x.operator == 2
 //@   ensures r.operator != 1 && r.operator != 3 ==> x.operator == r.operator
+//
+// ---- lemmas over the contracts above (each Go function stands for any function that
+// satisfies its contract): C05 laws, C04 idempotence of presentation rounding, C17 oddness
+//
+//@ lemma c05_raise_lossless(a Amount, e uint32): rescaleDom(a, e) && e >= a.exp ==> up(Amount.Rescale(a, e), e) == up(a, e)
+//@ lemma c05_add_exact(a Amount, b Amount): b.exp <= a.exp && rescaleDom(b, a.exp) && fits64(a.value + rescaleS(b, a.exp).value) ==> Amount.Add(a, b).value == a.value + up(b, a.exp)
+//@ lemma c05_cmp_antisym(a Amount, b Amount): rescaleDom(a, emax(a, b)) && rescaleDom(b, emax(a, b)) ==> Amount.Compare(a, b) == 0 - Amount.Compare(b, a)
+//@ lemma c05_equals_is_compare(a Amount, b Amount): rescaleDom(a, emax(a, b)) && rescaleDom(b, emax(a, b)) ==> (Amount.Equals(a, b) <==> Amount.Compare(a, b) == 0)
+//@ lemma c04_rescale_idem(a Amount, e uint32): rescaleDom(a, e) ==> Amount.Rescale(Amount.Rescale(a, e), e) == Amount.Rescale(a, e)
+//@ lemma c04_rescaledown_idem(a Amount, e uint32): rescaleDom(a, e) ==> Amount.RescaleDown(Amount.RescaleDown(a, e), e) == Amount.RescaleDown(a, e)
+//@ lemma c04_rescaleup_idem(a Amount, e uint32): rescaleDom(a, e) ==> Amount.RescaleUp(Amount.RescaleUp(a, e), e) == Amount.RescaleUp(a, e)
+//@ lemma c17_negate_involution(a Amount): a.value != 0 - 9223372036854775808 ==> Amount.Negate(Amount.Negate(a)) == a
+//@ lemma c17_odd_add(a Amount, b Amount): rescaleDom(b, a.exp) && inDom(a.value) && inDom(rescaleS(b, a.exp).value) && b.value != 0 - 9223372036854775808 && b.exp >= a.exp - 18 && (b.exp <= a.exp) ==> Amount.Add(Amount.Negate(a), Amount.Negate(b)) == Amount.Negate(Amount.Add(a, b))
+//@ lemma c17_rha_odd(p int, d int): d > 0 ==> rha(0 - p, d) == 0 - rha(p, d)
+//@ lemma c17_odd_rescale(a Amount, e uint32): rescaleDom(a, e) && a.value != 0 - 9223372036854775808 && fits64(0 - a.value * pow10(ite(e > a.exp, e - a.exp, 0))) ==> Amount.Rescale(Amount.Negate(a), e) == Amount.Negate(Amount.Rescale(a, e))
+//@ lemma c17_odd_multiply(a Amount, b Amount): b.exp <= 18 && inDom(a.value) && inDom(b.value) && inDom(a.value * b.value) ==> Amount.Multiply(Amount.Negate(a), b) == Amount.Negate(Amount.Multiply(a, b))
+//@ lemma c05_near_unique(n int, b int, t int, u int): b != 0 && near(n, b, t) && near(n, b, u) ==> t == u
